@@ -112,7 +112,10 @@ class Module:
         if known is None:
             return
         known_classes = set(str(known.get("<classes>", "")).split())
-        new_nt = {c: ci.node for c, ci in self.classes.items() if c not in known_classes and any(ast.unparse(b).split(".")[-1] == "NamedTuple" for b in ci.node.bases) and not any(isinstance(m, ast.FunctionDef) for m in ci.node.body)}
+        # (not classes that are instantiated at module level - rows of a constant table: those are read as records where they
+        # are used, e.g. by the type-table clause of R04.4 / R08.4)
+        module_level_calls = {n.func.id for st in self.tree.body if not isinstance(st, (ast.FunctionDef, ast.AsyncFunctionDef, ast.ClassDef)) for n in ast.walk(st) if isinstance(n, ast.Call) and isinstance(n.func, ast.Name)}
+        new_nt = {c: ci.node for c, ci in self.classes.items() if c not in known_classes and c not in module_level_calls and any(ast.unparse(b).split(".")[-1] == "NamedTuple" for b in ci.node.bases) and not any(isinstance(m, ast.FunctionDef) for m in ci.node.body)}
         if new_nt:
             self.tuple_views = tuple_view(self.tree, new_nt)
 
